@@ -135,8 +135,7 @@ def verdict(rep):
             per_rule[o.rule] = per_rule.get(o.rule, 0) + 1
         for rule, n in sorted(rep.min_counts.items()):
             got = per_rule.get(rule, 0)
-            if got < n and not any(o.rule.endswith((".anchor", ".engine", ".internal")) or o.status == "violated"
-                                   for o in rep.obls):
+            if got < n and all(o.status == "discharged" for o in rep.obls):
                 rep.unk(rule, "-", "vacuity guard",
                         f"rule matched {got} site(s); at least {n} were confirmed by hand on the reference tree")
     known = [k for k in load_known() if k.get("property") == rep.prop and k.get("status") == "known"]
